@@ -138,6 +138,8 @@ pub fn read_tree(dir: &Path) -> BTreeMap<String, Vec<u8>> {
 
 pub fn run_cli(backend: &str, args: &[&str], wit: &Path, world: Option<&str>, out: &Path, check: bool) -> (bool, String) {
     let mut cmd = Command::new(cli_path());
+    // no backtraces: they are slow to symbolize and clutter the error text
+    cmd.env("RUST_BACKTRACE", "0").env("RUST_LIB_BACKTRACE", "0");
     cmd.arg(backend).args(args).arg(wit).arg("--out-dir").arg(out).arg("--all-features");
     if let Some(w) = world {
         cmd.arg("--world").arg(w);
